@@ -56,6 +56,9 @@ type Universe struct {
 	Name string
 	NFT  bool // conf.NFTablesMode != Disabled => overlap suppression in the IP-set member index
 	Keys []Key
+	// Groups are generation hints only (never used to judge): sets of related keys (an object and the keys that
+	// decide whether it is active / what it contains) that the window-mode history generator toggles together.
+	Groups [][]string
 }
 
 func (u *Universe) key(id string) *Key {
@@ -291,6 +294,7 @@ func universePolicy() *Universe {
 			V("b", &model.NetworkSet{Nets: nets("12.0.0.0/16", "13.0.0.0/8"), Labels: lbl("role", "db"), ProfileIDs: []string{"prof2"}}),
 		}},
 	)
+	u.Groups = [][]string{{"polA", "wepL1"}, {"polC", "wepL1", "polA"}, {"pr-prof1", "wepL1"}, {"pr-prof2", "wepL2"}, {"polB", "hepL"}, {"pl-prof1", "polA", "wepL1"}, {"tier-tier1", "polB", "wepL1"}, {"ns1", "polA", "wepL1"}, {"polD", "wepL1"}, {"pr-prof1", "pr-prof2", "wepL1"}}
 	return u
 }
 
@@ -344,6 +348,7 @@ func universeOrder() *Universe {
 		tierKey("tier1", V("a", &model.Tier{Order: fp(10), DefaultAction: v3.Deny}), V("b", &model.Tier{Order: fp(100), DefaultAction: v3.Pass}), V("c", &model.Tier{DefaultAction: v3.Pass})),
 		tierKey("tier2", V("a", &model.Tier{Order: fp(10), DefaultAction: v3.Pass}), V("b", &model.Tier{DefaultAction: v3.Deny})),
 	)
+	u.Groups = [][]string{{"p1", "wepL1"}, {"p2", "hepL", "pl-prof1"}, {"p3", "tier-tier1", "wepL1"}, {"p4", "p3", "hepL"}, {"p1", "p2", "wepL1"}}
 	return u
 }
 
@@ -408,6 +413,7 @@ func universeIPSets(nft bool) *Universe {
 			V("b", &model.NetworkSet{Nets: nets("12.0.0.0/8", "128.0.0.0/1"), Labels: lbl(), ProfileIDs: []string{"prof1"}}),
 		}},
 	)
+	u.Groups = [][]string{{"polA", "wepL1"}, {"polB", "wepL1"}, {"pr-prof1", "wepL1"}, {"polA", "ns1", "ns2"}, {"wepR1", "wepR2", "polA"}, {"pl-prof1", "wepR1", "polA"}, {"polA", "polB", "wepL1"}}
 	return u
 }
 
@@ -468,6 +474,7 @@ func universeRoutes() *Universe {
 			Bad("bad", wep("", lbl("role", "web"), nil, []string{"10.0.0.1/32"})),
 		}},
 	)
+	u.Groups = [][]string{{"nodeR1", "hcR1"}, {"blkR1", "nodeR1"}, {"pool1", "blkR1"}, {"wepL1", "blkL"}, {"nodeL", "blkR1", "pool1"}, {"hcR2", "nodeR2", "blkR2"}, {"blkR1", "blkR2", "nodeR1"}}
 	return u
 }
 
@@ -502,6 +509,7 @@ func universeNames() *Universe {
 		tierKey("default", V("a", &model.Tier{Order: fp(100), DefaultAction: v3.Deny})),
 		tierKey("default.x", V("a", &model.Tier{Order: fp(100), DefaultAction: v3.Deny})),
 	)
+	u.Groups = [][]string{{"n1", "n2", "wepL1"}, {"n3", "n4", "wepL1"}}
 	return u
 }
 
